@@ -22,7 +22,8 @@ META = {
         '__iter__, __len__, __getitem__, at, value_at, index, reverse, sort, pop_at, MetadataObject.append/extend) '
         'have their documented normal forms; only SortableDict writes _order/_values.  Also (D5): sort/reverse may be written as a rebuild of _order from the CURRENT order (value-dict insertion order is a violation); MetadataObject.extend traverses its argument once (one-shot iterables).  Also (D5): overridden MutableMapping methods (items/keys/values) pair each key of _order with its own value; sort with an explicit signature passes key and reverse to list.sort (sort-then-reverse is not the stable descending sort).  Not decided: lock-step '
         'equality with a reference ordered map as an execution.'
-        " Also (D5): every way out of index() is the list's own index() or a raise (add_item relies on its ValueError to refuse an unknown pos_key)."),
+        " Also (D5): every way out of index() is the list's own index() or a raise (add_item relies on its ValueError to refuse an unknown pos_key)."
+        ' Also (D2): key existence is a membership test, not a comparison of the value with None.'),
     'rule_text': 'obligations = paths of add_item x applicable facts, delegation normal forms, who-may-write sites',
     'trusted_base': ['list.insert/append/remove/index and dict semantics; MutableMapping mixin methods reduce to the '
                      'five primitives (spec/mixins.json)'],
@@ -154,6 +155,24 @@ def _add_item(ctx, meths):
                       'm[k] = v on an existing key: defaults after/index/pos_key/replace are no longer False/None/None/True',
                       'add_item defaults changed to %s' % defaults, file=F, line=fn.lineno, engine='E6')
     s, key, value, after, index, pos_key, replace = args
+    # "is the key already there?" is a membership test; a look-up compared with None takes a key whose VALUE is None
+    # (the Haystack null, `tag:N`) for absent
+    for n_ in walk_no_nested(fn):
+        if isinstance(n_, ast.Assign) and len(n_.targets) == 1 and isinstance(n_.targets[0], ast.Name) \
+                and isinstance(n_.value, ast.Call) and norm(n_.value.func) in ('%s._values.get' % s, '%s.get' % s) \
+                and n_.value.args and norm(n_.value.args[0]) == key:
+            v_ = n_.targets[0].id
+            tests = [t_ for t_ in walk_no_nested(fn) if isinstance(t_, ast.If)
+                     and norm(t_.test) in ('%s is not None' % v_, v_, '%s is None' % v_, 'not %s' % v_, '%s != None' % v_)]
+            if tests:
+                ctx.violation('C16.D2', '%s::SortableDict.add_item' % F, norm(tests[0].test),
+                              "m['a'] = None (the Haystack null); m['a'] = 1 (or m.add_item('a', 1, replace=False)): the key is looked "
+                              "up with `%s` and `%s` takes the None VALUE for \"no such key\" -- 'a' is entered in the key order a "
+                              'second time (len, items() and the dumped header repeat it), and the duplicate is not refused'
+                              % (norm(n_.value), norm(tests[0].test)),
+                              'add_item decides whether the key exists by comparing its value with None instead of `key in '
+                              'self._values`', file=F, line=tests[0].lineno, engine='E6')
+                return
     try:
         paths = enumerate_paths(body_wo_doc(fn))
     except Unsupported as e:
